@@ -475,6 +475,10 @@ def validate_source_uri(source_uri: str, base_path: Path) -> Path:
     # resolve() follows symlinks and returns absolute path
     try:
         resolved = candidate.resolve()
+        # resolve(strict=False) returns a partially resolved path when it runs into a
+        # symlink loop; a fully resolved path is a fixed point of resolve()
+        if resolved.resolve() != resolved:
+            raise OSError("path cannot be fully resolved (symlink loop)")
     except (OSError, ValueError) as e:
         raise SourceUriSecurityError(
             source_uri,
@@ -1239,6 +1243,10 @@ def _check_single_snapshot(
     try:
         candidate = base_path / source_uri
         source_path = candidate.resolve()  # Follows symlinks
+        # resolve(strict=False) returns a partially resolved path when it runs into a
+        # symlink loop; a fully resolved path is a fixed point of resolve()
+        if source_path.resolve() != source_path:
+            raise OSError("path cannot be fully resolved (symlink loop)")
     except (OSError, ValueError) as e:
         return StalenessResult(
             namespace=namespace,
